@@ -103,6 +103,22 @@ for pid in sorted(os.listdir(md)) if os.path.isdir(md) else []:
     out.append('| %s | %d | %d | %d | %d |' % (pid, b, c, b - c, pres))
 out.append('')
 out.append('Total: %d breaking mutants, %d reported.' % (tb, tc))
+out.append('')
+out.append('### A.6 Exemptions in effect on the current tree (evidence files of the last run)\n')
+out.append('One construct each (DESIGN section 7): the rule matches although no property is violated; anything else matching the rule is still reported.\n')
+out.append('| property | rule | construct | reason |')
+out.append('|----------|------|-----------|--------|')
+seen_ex = set()
+for pid in props:
+    p = os.path.join(HERE, 'evidence', pid + '.json')
+    if not os.path.exists(p):
+        continue
+    ev = json.load(open(p))
+    for f in ev['coverage'].get('exempted', []) if isinstance(ev.get('coverage'), dict) else []:
+        k = (f.get('rule'), f.get('construct'))
+        tag = '' if k not in seen_ex else ' (shared rule, see above)'
+        seen_ex.add(k)
+        out.append('| %s | %s | `%s` | %s |' % (pid, f.get('rule'), esc(f.get('construct'))[:140], (esc(f.get('reason') or '')[:260] if not tag else tag.strip())))
 txt = '\n'.join(out) + '\n'
 dp = os.path.join(HERE, 'DESIGN.md')
 s = open(dp).read()
